@@ -23,12 +23,6 @@ def wf(E, label, x):
     E.true(label + ':boundary_ranks', (cores[0].shape[0] == 1) & (cores[-1].shape[-1] == 1))
     E.true(label + ':R', all_eq(list(x.R), [cores[0].shape[0]] + [c.shape[-1] for c in cores]))
     E.true(label + ':is_ttm', x.is_ttm == (nd == 4))
-    # the metadata getters hand out copies: changing a returned list must not change the object
-    for nm in (('N', 'R') + (('M',) if nd == 4 else ())):
-        got = getattr(x, nm)
-        n0 = len(got)
-        got.append(99)
-        E.true(label + ':%s_getter_returns_copy' % nm, len(getattr(x, nm)) == n0 and getattr(x, nm) is not got)
     if nd == 4:
         E.true(label + ':M', all_eq(list(x.M), [c.shape[1] for c in cores]))
         E.true(label + ':N', all_eq(list(x.N), [c.shape[2] for c in cores]))
@@ -48,7 +42,24 @@ def wf(E, label, x):
         E.true(label + ':full_shape', all_eq(list(f.shape), [c.shape[1] for c in cores]))
 
 
+def _ctor_from_metadata_then_set_core(E, x, s):
+    """a second object is built from x's reported shape list and then changed in place: x must stay consistent
+    (public operations only: the constructor with a shape argument, set_core)"""
+    tt = E.tt
+    if x.is_ttm:
+        shape = [(m, n) for m, n in zip(x.M, x.N)]
+        dense_shape = list(x.M) + list(x.N)
+        y = tt.TT(E.stensor('full', dense_shape), shape)
+        y.set_core(0, E.stensor('nc', [1, E.dim('nm', 1, s['B']), E.dim('nn', 1, s['B']), y.R[1]]))
+    else:
+        Nx = x.N
+        y = tt.TT(E.stensor('full', list(Nx)), Nx)
+        y.set_core(0, E.stensor('nc', [1, E.dim('nn', 1, s['B']), y.R[1]]))
+    return y
+
+
 EXTRA = {
+    'ctor_from_N_then_set_core': (['any'], lambda E, o, s: _ctor_from_metadata_then_set_core(E, o[0], s)),
     'set_core': (['any'], lambda E, o, s: o[0].set_core(s.get('k', 0), E.stensor('nc', ([o[0].R[s.get('k', 0)], E.dim('nm', 1, s['B']), E.dim('nn', 1, s['B']), o[0].R[s.get('k', 0) + 1]]
                                                                                        if o[0].is_ttm else [o[0].R[s.get('k', 0)], E.dim('nn', 1, s['B']), o[0].R[s.get('k', 0) + 1]])))),
     'set_core_free': (['any'], lambda E, o, s: o[0].set_core(s.get('k', 0), E.stensor('nc', [E.dim('f%d' % i, 1, s['B']) for i in range(4 if o[0].is_ttm else 3)]))),
